@@ -22,7 +22,19 @@ Part 'histories': DirectSimulation under a scripted stream; operations run(k),
 k in {0,1,2,3}; all operation sequences of length <= 4 with total <= 4 trials.
 
 Part 'seeds': two fresh (code, noise, decoder, default_rng(seed)) runs of 20
-trials must be bitwise equal, for every registered decoder.
+trials must be bitwise equal, for every registered decoder, and equal to the
+sequence of 20 run_once records drawn from the same seed at the simulated rate.
+
+Axis 'decoder prior != simulated rate' (histories and seeds): the decoder is
+built with a prior error rate different from the rate that is simulated (a
+mismatched decoder is a legitimate configuration), including simulated p = 0
+(exact failure probability 0: no trial may fail) and p = 1.  The noise model
+is wrapped so that the rate every error is sampled at is recorded.
+
+Part 'estimator': calculate_logical_error_rate(code, noise, decoder, p, n_runs)
+for n_runs = 1..k and every stream of scripted errors (the error model is the
+environment: it hands out the scripted errors and counts the draws): exactly
+n_runs errors drawn at rate p, estimate == reference n_fail / n_runs.
 """
 import hashlib
 import io
@@ -42,7 +54,10 @@ DESIGN_REF = 'DESIGN.md §4 C11, §5 (D9, D10, D15, D16)'
 TECHNIQUE = ('exhaustive enumeration of the random-number environment (every per-qubit Pauli class script of '
              'positive mass, 4^n for full-support noise) through the real run_once, with an exact two-sided '
              'summation of the failure probability; exhaustive enumeration of run(k) operation histories of '
-             'DirectSimulation under scripted streams; exhaustive (decoder, code, seed) box for reproducibility')
+             'DirectSimulation under scripted streams (decoder prior equal to and different from the simulated '
+             'rate, incl. p = 0 and p = 1); exhaustive (decoder, code, seed) box for reproducibility against the '
+             'run_once sequence of the same seed; exhaustive scripted-error streams through '
+             'calculate_logical_error_rate for n_runs = 1..k')
 LEVEL_TEXT = ('The random generator is the only environment of a trial; on codes with n <= 6 (8) every answer '
               'sequence it can give, up to the class of each variate, is enumerated and executed on the real '
               'pipeline, so the per-trial identities are decided for every error and the unbiasedness claim '
@@ -65,7 +80,11 @@ RULE = ('trial: (class,size) with n <= n_full x decoders {Matching, BP-OSD, Unio
         'decoder restricted to one error type makes S a trial outside the codespace); non-trivial = '
         'distinct (config, stream, sequence) with at least two run(k>0) calls; states = distinct canonical '
         '(config, stream, n_runs, lists, rng position); transitions = run() calls. seeds: (decoder, code, seed) '
-        'box; non-trivial = seeded runs containing both a failure and a success or raising.')
+        'box incl. decoders whose prior differs from the simulated rate; non-trivial = seeded runs containing '
+        'both a failure and a success or raising. Stream letters m/h/q are raw variate levels (0.6 / 0.97 on '
+        'all qubits; 0.97 on qubit 0 and 0.25 elsewhere) classified by the reference intervals at the '
+        'simulated rate. estimator: n_runs = 1..k x every stream over the letters of length n_runs, errors '
+        'handed out by a scripted, counting error model; non-trivial = streams with n_runs >= 2.')
 ASSUMPTIONS = [
     'GF(2) reference algebra mc/gf2.py; H, logicals_x, logicals_z of the code object define the code (C01)',
     'cumulative stacking order I,X,Y,Z of the sampler (C07), re-verified per script by error == script',
@@ -95,13 +114,13 @@ BOUNDS = {
               'n_all_noises': 5,
               'noises_above': [('depol', False), ('X.2Y.3Z.5', True), ('pureZ', False), ('pureZ', True),
                                ('pureX', True)],
-              'deformed_code_n': 0, 'structured_weight': 1, 'history_total': 4,
+              'deformed_code_n': 0, 'structured_weight': 1, 'estimator_max_runs': 4, 'history_total': 4,
               'history_len': 4, 'seeds': 5, 'seed_trials': 20},
     'thorough': {'n_full': 8, 'noises': NOISES, 'rates': RATES, 'shard': SHARD, 'shard_slow': 256, 'n_all_noises': 6,
                  'noises_above': [('depol', False), ('X.2Y.3Z.5', True), ('pureZ', False), ('pureZ', True),
                                   ('pureX', True)],
                  'uf_noises': [('depol', False), ('X.2Y.3Z.5', True), ('pureZ', True)],
-                 'deformed_code_n': 6, 'structured_weight': 2, 'history_total': 4,
+                 'deformed_code_n': 6, 'structured_weight': 2, 'estimator_max_runs': 6, 'history_total': 4,
                  'history_len': 4, 'seeds': 5, 'seed_trials': 20},
 }
 BUDGET_S = {'quick': 900, 'thorough': 7200}
@@ -142,26 +161,50 @@ STRUCTURED = {
 STRUCTURED_NOISE = ('X.2Y.3Z.5', False)
 STRUCTURED_RATE = 0.1
 
-# (decoder, cls, size, noise, decoder params, stream letters).  A MatchingDecoder restricted to X errors leaves
-# Z-type syndromes uncorrected, which gives trials outside the codespace (letter S) on a repaired tree too.
+# (decoder, cls, size, noise, decoder params, stream letters, simulated rate, decoder prior or None = same).
+# A MatchingDecoder restricted to X errors leaves Z-type syndromes uncorrected, which gives trials outside the
+# codespace (letter S) on a repaired tree too.  Letters I/L/S are Pauli scripts, m/h/q raw variate levels.
 HISTORY_CONFIGS = {
     'quick': [
-        ('MatchingDecoder', 'RotatedPlanar2DCode', [2, 2], ('X.2Y.3Z.5', False), {}, 'IL'),
-        ('BeliefPropagationOSDDecoder', 'RotatedPlanar2DCode', [2, 2], ('X.2Y.3Z.5', False), {}, 'IL'),
-        ('MatchingDecoder', 'Planar2DCode', [2, 2], ('X.2Y.3Z.5', True), {'error_type': 'X'}, 'ILS'),
+        ('MatchingDecoder', 'RotatedPlanar2DCode', [2, 2], ('X.2Y.3Z.5', False), {}, 'IL', 0.3, None),
+        ('BeliefPropagationOSDDecoder', 'RotatedPlanar2DCode', [2, 2], ('X.2Y.3Z.5', False), {}, 'IL', 0.3, None),
+        ('MatchingDecoder', 'Planar2DCode', [2, 2], ('X.2Y.3Z.5', True), {'error_type': 'X'}, 'ILS', 0.3, None),
+        # decoder prior != simulated rate
+        ('MatchingDecoder', 'RotatedPlanar2DCode', [2, 2], ('X.2Y.3Z.5', False), {}, 'Lq', 0.3, 0.05),
+        ('MatchingDecoder', 'Planar2DCode', [2, 2], ('depol', False), {}, 'mq', 0.0, 0.5),
     ],
     'thorough': [
-        ('MatchingDecoder', 'RotatedPlanar2DCode', [2, 2], ('X.2Y.3Z.5', False), {}, 'ILS'),
-        ('BeliefPropagationOSDDecoder', 'RotatedPlanar2DCode', [2, 2], ('X.2Y.3Z.5', False), {}, 'ILS'),
-        ('MatchingDecoder', 'Planar2DCode', [2, 2], ('X.2Y.3Z.5', True), {'error_type': 'X'}, 'ILS'),
-        ('MatchingDecoder', 'RotatedPlanar2DCode', [2, 3], ('X.2Y.3Z.5', True), {'error_type': 'Z'}, 'ILS'),
-        ('BeliefPropagationOSDDecoder', 'RotatedToric3DCode', [2, 2, 1], ('depol', False), {}, 'ILS'),
-        ('UnionFindDecoder', 'Toric2DCode', [2, 2], ('X.2Y.3Z.5', False), {}, 'ILS'),
+        ('MatchingDecoder', 'RotatedPlanar2DCode', [2, 2], ('X.2Y.3Z.5', False), {}, 'ILS', 0.3, None),
+        ('BeliefPropagationOSDDecoder', 'RotatedPlanar2DCode', [2, 2], ('X.2Y.3Z.5', False), {}, 'ILS', 0.3, None),
+        ('MatchingDecoder', 'Planar2DCode', [2, 2], ('X.2Y.3Z.5', True), {'error_type': 'X'}, 'ILS', 0.3, None),
+        ('MatchingDecoder', 'RotatedPlanar2DCode', [2, 3], ('X.2Y.3Z.5', True), {'error_type': 'Z'}, 'ILS', 0.3,
+         None),
+        ('BeliefPropagationOSDDecoder', 'RotatedToric3DCode', [2, 2, 1], ('depol', False), {}, 'ILS', 0.3, None),
+        ('UnionFindDecoder', 'Toric2DCode', [2, 2], ('X.2Y.3Z.5', False), {}, 'ILS', 0.3, None),
+        # decoder prior != simulated rate
+        ('MatchingDecoder', 'RotatedPlanar2DCode', [2, 2], ('X.2Y.3Z.5', False), {}, 'ILq', 0.3, 0.05),
+        ('MatchingDecoder', 'Planar2DCode', [2, 2], ('depol', False), {}, 'Imq', 0.0, 0.5),
+        ('BeliefPropagationOSDDecoder', 'RotatedPlanar2DCode', [2, 2], ('X.2Y.3Z.5', True), {}, 'ILh', 0.05, 0.3),
+        ('BeliefPropagationOSDDecoder', 'Planar2DCode', [2, 2], ('depol', False), {}, 'Imh', 0.0, 0.3),
+        ('MatchingDecoder', 'RotatedPlanar2DCode', [2, 2], ('depol', False), {}, 'mhq', 1.0, 0.3),
     ],
 }
-HISTORY_RATE = 0.3
 
-# seeds part: every registered decoder on small allowed codes. (decoder, cls, size, p, params)
+# estimator part: (decoder, cls, size, noise, params, letters, simulated rate, decoder prior or None)
+ESTIMATOR_CONFIGS = {
+    'quick': [
+        ('MatchingDecoder', 'RotatedPlanar2DCode', [2, 2], ('X.2Y.3Z.5', False), {}, 'ILS', 0.3, None),
+        ('BeliefPropagationOSDDecoder', 'Planar2DCode', [2, 2], ('depol', False), {}, 'ILS', 0.3, 0.05),
+        ('MatchingDecoder', 'Toric2DCode', [3, 3], ('pureX', False), {}, 'IL', 0.5, 0.05),
+    ],
+}
+ESTIMATOR_CONFIGS['thorough'] = ESTIMATOR_CONFIGS['quick'] + [
+    ('MatchingDecoder', 'Planar2DCode', [2, 2], ('X.2Y.3Z.5', True), {'error_type': 'X'}, 'ILS', 0.3, None),
+    ('UnionFindDecoder', 'Toric2DCode', [2, 2], ('depol', False), {}, 'IL', 0.1, None),      # 15 ms per trial
+    ('BeliefPropagationOSDDecoder', 'RotatedToric3DCode', [2, 2, 1], ('depol', False), {}, 'ILS', 0.0, 0.3),
+]
+
+# seeds part: every registered decoder on small allowed codes. (decoder, cls, size, p, params[, decoder prior])
 SEED_CONFIGS = {
     'quick': [
         ('MatchingDecoder', 'Toric2DCode', [3, 3], 0.2, {}),
@@ -176,6 +219,10 @@ SEED_CONFIGS = {
         ('RotatedSweepMatchDecoder', 'RotatedPlanar3DCode', [3, 3, 3], 0.1, {}),
         ('XCubeMatchingDecoder', 'XCubeCode', [2, 2, 2], 0.1, {}),
         ('MemoryBeliefPropagationDecoder', 'RotatedPlanar2DCode', [3, 3], 0.1, {'max_bp_iter': 3}),
+        # decoder prior != simulated rate (incl. p = 0, where the exact failure probability is 0)
+        ('MatchingDecoder', 'Toric2DCode', [3, 3], 0.3, {}, 0.05),
+        ('MatchingDecoder', 'Toric2DCode', [3, 3], 0.0, {}, 0.5),
+        ('BeliefPropagationOSDDecoder', 'RotatedPlanar2DCode', [3, 3], 0.05, {}, 0.3),
     ],
 }
 SEED_CONFIGS['thorough'] = SEED_CONFIGS['quick'] + [
@@ -186,6 +233,9 @@ SEED_CONFIGS['thorough'] = SEED_CONFIGS['quick'] + [
     ('SweepMatchDecoder', 'Planar3DCode', [3, 3, 3], 0.1, {}),
     ('RotatedSweepMatchDecoder', 'RotatedToric3DCode', [2, 2, 2], 0.1, {}),
     ('XCubeMatchingDecoder', 'XCubeCode', [3, 3, 3], 0.1, {}),
+    ('UnionFindDecoder', 'Toric2DCode', [3, 3], 0.0, {}, 0.2),
+    ('SweepMatchDecoder', 'Toric3DCode', [2, 2, 2], 0.2, {}, 0.02),
+    ('BeliefPropagationOSDDecoder', 'Toric2DCode', [3, 3], 1.0, {}, 0.1),
 ]
 
 
@@ -205,9 +255,43 @@ def _noise_deformation_name(cls_name):
     return names[0] if names else None
 
 
-def _error_model(direction, deformation_name):
-    from panqec.error_models import PauliErrorModel
-    return PauliErrorModel(*DIRECTIONS[direction], deformation_name=deformation_name)
+_NOISE_CLASSES = {}
+
+
+def _noise_classes():
+    """Subclasses of the real PauliErrorModel that observe the environment interface: RecordingNoise samples
+    exactly like the real model and records the rate of every draw; ScriptedNoise hands out scripted errors
+    (for entry points that do not accept a generator) and counts the draws."""
+    if not _NOISE_CLASSES:
+        from panqec.error_models import PauliErrorModel
+
+        class RecordingNoise(PauliErrorModel):
+            def generate(self, code, error_rate, rng=None):
+                if not hasattr(self, 'rates'):
+                    self.rates = []
+                self.rates.append(float(error_rate))
+                return super().generate(code, error_rate, rng=rng)
+
+        class ScriptedNoise(PauliErrorModel):
+            def generate(self, code, error_rate, rng=None):
+                if not hasattr(self, 'rates'):
+                    self.rates = []
+                self.rates.append(float(error_rate))
+                script = getattr(self, 'script', [])
+                i = len(self.rates) - 1
+                if i < len(script):
+                    return np.array(script[i], dtype=np.uint8)
+                return np.zeros(2 * code.n, dtype=np.uint8)      # beyond the script: counted by the caller
+
+        _NOISE_CLASSES['rec'] = RecordingNoise
+        _NOISE_CLASSES['scr'] = ScriptedNoise
+    return _NOISE_CLASSES
+
+
+def _error_model(direction, deformation_name, kind='rec'):
+    em = _noise_classes()[kind](*DIRECTIONS[direction], deformation_name=deformation_name)
+    em.rates = []
+    return em
 
 
 def _build_code(case):
@@ -359,7 +443,8 @@ def _base_key(case, ref=None):
     k = {'part': case['part'], 'decoder': case['decoder'], 'params': dict(case.get('params') or {}),
          'cls': case['cls'], 'size': list(case['size']),
          'code_deformation': d[0] if d else None, 'direction': case['direction'],
-         'noise_deformation': case['noise_deformation'], 'p': case['p']}
+         'noise_deformation': case['noise_deformation'], 'p': case['p'], 'decoder_p': _prior(case),
+         'prior_differs': _prior(case) != case['p']}
     if ref is not None:
         k['n'] = ref.n
         k['k'] = ref.k
@@ -421,31 +506,41 @@ def cases(tier, seed):
                            'p': STRUCTURED_RATE, 'weight': w if w is not None else b['structured_weight']})
     # ---- part 'histories'
     hist = []
-    for dec, cls, size, (direction, deformed), params, letters in HISTORY_CONFIGS[tier]:
+    for dec, cls, size, (direction, deformed), params, letters, p, dp in HISTORY_CONFIGS[tier]:
         for stream in itertools.product(letters, repeat=b['history_total']):
             hist.append({'part': 'histories', 'cls': cls, 'size': size, 'deformation': None, 'decoder': dec,
                          'params': params, 'direction': direction,
                          'noise_deformation': _noise_deformation_name(cls) if deformed else None,
-                         'p': HISTORY_RATE, 'stream': ''.join(stream), 'max_total': b['history_total'],
+                         'p': p, 'decoder_p': dp, 'stream': ''.join(stream), 'max_total': b['history_total'],
                          'max_len': b['history_len']})
+    hist.sort(key=lambda c: c['decoder_p'] is not None)          # stable: matched priors first
+    # ---- part 'estimator'
+    estim = []
+    for dec, cls, size, (direction, deformed), params, letters, p, dp in ESTIMATOR_CONFIGS[tier]:
+        estim.append({'part': 'estimator', 'cls': cls, 'size': size, 'deformation': None, 'decoder': dec,
+                      'params': params, 'direction': direction,
+                      'noise_deformation': _noise_deformation_name(cls) if deformed else None,
+                      'p': p, 'decoder_p': dp, 'letters': letters, 'max_runs': b['estimator_max_runs']})
     # ---- part 'seeds'
     seeds = []
-    for dec, cls, size, p, params in SEED_CONFIGS[tier]:
+    for cfg in SEED_CONFIGS[tier]:
+        dec, cls, size, p, params = cfg[:5]
         for s in range(b['seeds']):
             seeds.append({'part': 'seeds', 'cls': cls, 'size': size, 'deformation': None, 'decoder': dec,
                           'params': params, 'direction': 'X.2Y.3Z.5', 'noise_deformation': None, 'p': p,
+                          'decoder_p': cfg[5] if len(cfg) > 5 else None,
                           'seed': s, 'trials': b['seed_trials']})
     # cheapest layer first (one seeded run of every decoder, the structured sweeps), then simplest first
     small = [c for c in trial if c['n'] <= 5]
     large = [c for c in trial if c['n'] > 5]
     seeds0 = [c for c in seeds if c['seed'] == 0]
     seeds1 = [c for c in seeds if c['seed'] != 0]
-    return structured + seeds0 + small + hist + seeds1 + large
+    return structured + estim + seeds0 + small + hist + seeds1 + large
 
 
 def eval_case(case):
     res = {'trial': _eval_trial, 'structured': _eval_structured, 'histories': _eval_histories,
-           'seeds': _eval_seeds}[case['part']](case)
+           'seeds': _eval_seeds, 'estimator': _eval_estimator}[case['part']](case)
     for v in res['violations']:                 # per-kind totals of emitted violations, for the evidence
         nm = 'emitted_%s_%s' % (case['part'], v['key']['kind'].replace('-', '_'))
         res['extra'][nm] = res['extra'].get(nm, 0) + 1
@@ -453,9 +548,16 @@ def eval_case(case):
 
 
 # ------------------------------------------------------------------ part 'trial'
-def _fresh_decoder(case, code):
-    em = _error_model(case['direction'], case['noise_deformation'])
-    return em, _decoder_class(case['decoder'])(code, em, case['p'], **case.get('params', {}))
+def _prior(case):
+    dp = case.get('decoder_p')
+    return case['p'] if dp is None else dp
+
+
+def _fresh_decoder(case, code, noise_kind='rec'):
+    """Fresh (error model, decoder); the decoder is built with its prior rate, which may differ from the
+    simulated rate case['p']."""
+    em = _error_model(case['direction'], case['noise_deformation'], noise_kind)
+    return em, _decoder_class(case['decoder'])(code, em, _prior(case), **case.get('params', {}))
 
 
 def _eval_trial(case):
@@ -667,6 +769,32 @@ def _letter_script(letter, code, ref):
     return [{'I': 0, 'X': 1, 'Y': 2, 'Z': 3}[ch] for ch in _pauli(e, n)], e
 
 
+LEVELS = {'m': lambda i: 0.6, 'h': lambda i: 0.97, 'q': lambda i: 0.97 if i == 0 else 0.25}
+
+
+def _ref_class(probs_i, x):
+    """Class (0..3 = I,X,Y,Z) whose cumulative interval contains the variate x, by the reference stacking;
+    the variate must lie well inside the interval (boundaries are C07)."""
+    for c, (lo, hi) in enumerate(class_intervals(probs_i)):
+        if hi > lo and lo <= x < hi:
+            if min(x - lo, hi - x) < 1e-6:
+                raise RuntimeError('stream variate %r too close to an interval boundary' % x)
+            return c
+    raise RuntimeError('variate %r outside [0, 1)' % x)
+
+
+def _letter_variates(letter, code, ref, env):
+    """One trial of a stream: (n variates, the error they must produce at the simulated rate)."""
+    if letter in LEVELS:
+        vs = [LEVELS[letter](i) for i in range(ref.n)]
+        script = [_ref_class(env.probs[i], x) for i, x in enumerate(vs)]
+        return vs, env.error_int(script)
+    script, e = _letter_script(letter, code, ref)
+    if any(env.var[i][c] is None for i, c in enumerate(script)):
+        raise RuntimeError('history stream needs a zero-probability class')
+    return env.variates(script), e
+
+
 def _sequences(max_len, max_total):
     out = []
     for l in range(max_len + 1):
@@ -707,10 +835,8 @@ def _eval_histories(case):
     stream = []
     errors = []
     for letter in case['stream']:
-        script, e = _letter_script(letter, code, ref)
-        if any(env.var[i][c] is None for i, c in enumerate(script)):
-            raise RuntimeError('history stream needs a zero-probability class')
-        stream += env.variates(script)
+        vs, e = _letter_variates(letter, code, ref, env)
+        stream += vs
         errors.append(e)
     T = case['max_total']
 
@@ -741,8 +867,8 @@ def _eval_histories(case):
                    t * n)
 
     state_ids = set()
-    label = '%s|%s|%s|%s|%s' % (F.cfg_label(case), case['decoder'], case['direction'], case['noise_deformation'],
-                                case['stream'])
+    label = '%s|%s|%s|%s|%s|%s|%s' % (F.cfg_label(case), case['decoder'], case['direction'],
+                                      case['noise_deformation'], case['p'], _prior(case), case['stream'])
     outcomes = set()
     nontrivial = set()
     for seq in _sequences(case['max_len'], T):
@@ -798,7 +924,14 @@ def _eval_histories(case):
                     or not same(g['p_est'], pe) or not same(g['p_se'], se):
                 bad('estimator-wrong', seq[:j], got={kk: float(vv) for kk, vv in g.items()},
                     expected={'n_runs': nr, 'n_fail': nf, 'p_est': pe, 'p_se': se})
+            if case['p'] == 0 and nf:
+                bad('failure-recorded-at-zero-error-rate', seq[:j], n_fail=nf, n_runs=nr, success=succ)
             outcomes.add('%d|%d|%s' % (nr, nf, st[4]))
+        # every error of the history must have been sampled at the simulated rate, whatever the decoder prior
+        if any(x != float(case['p']) for x in em.rates) or len(em.rates) != done:
+            bad('noise-sampled-at-rate-other-than-simulated', seq, simulated_rate=case['p'],
+                decoder_prior=_prior(case), rates_passed_to_noise=sorted(set(em.rates)), draws=len(em.rates),
+                trials=done)
         if sum(1 for k in seq if k > 0) >= 2:
             nontrivial.add(seq)
     res['nontrivial'] = len(nontrivial)
@@ -842,15 +975,36 @@ def _seeded_run(case):
            tuple(bool(x) for x in R['success']),
            tuple(bool(x) for x in R['codespace']),
            rng.bit_generator.state['state']['state'])
-    return out, exc
+    return out, exc, list(em.rates)
+
+
+def _seeded_reference(case):
+    """The same seed pushed through the single-shot API at the simulated rate (fresh objects, one decoder)."""
+    from panqec.simulation import run_once
+    code = _build_code(case)
+    em, dec = _fresh_decoder(case, code)
+    rng = np.random.default_rng(case['seed'])
+    recs = []
+    try:
+        with contextlib.redirect_stdout(io.StringIO()):
+            for _ in range(case['trials']):
+                recs.append(run_once(code, em, dec, case['p'], rng=rng))
+    except Exception:
+        return None
+    return (len(recs),
+            tuple(np.asarray(r['effective_error']).tobytes() for r in recs),
+            tuple(str(np.asarray(r['effective_error']).dtype) for r in recs),
+            tuple(bool(r['success']) for r in recs),
+            tuple(bool(r['codespace']) for r in recs),
+            rng.bit_generator.state['state']['state'])
 
 
 def _eval_seeds(case):
     res = _new_result()
-    a, ea = _seeded_run(case)
-    b, eb = _seeded_run(case)
-    res['evals'] = 2
-    res['traces'] = 2
+    a, ea, rates_a = _seeded_run(case)
+    b, eb, _ = _seeded_run(case)
+    res['evals'] = 3
+    res['traces'] = 3
     key0 = dict(_base_key(case), seed=case['seed'], trials=case['trials'])
     V = res['violations']
     if ea or eb:
@@ -866,6 +1020,21 @@ def _eval_seeds(case):
     if a[0] != case['trials'] and not ea:
         V.append({'key': dict(key0, kind='n_runs-differs-from-trials-requested'), 'detail': {'n_runs': a[0]}})
     nf = sum(1 for x in a[3] if not x)
+    if not ea:
+        want = _seeded_reference(case)
+        if want is not None and a != want:
+            which = [nm for nm, x, y in zip(['n_runs', 'effective_error', 'dtype', 'success', 'codespace',
+                                             'generator_state'], a, want) if x != y]
+            V.append({'key': dict(key0, kind='seeded-run-differs-from-run_once-sequence'),
+                      'detail': {'differs_in': which, 'success_simulation': list(a[3]),
+                                 'success_run_once_sequence': list(want[3])}})
+        if any(x != float(case['p']) for x in rates_a) or len(rates_a) != a[0]:
+            V.append({'key': dict(key0, kind='noise-sampled-at-rate-other-than-simulated'),
+                      'detail': {'simulated_rate': case['p'], 'decoder_prior': _prior(case),
+                                 'rates_passed_to_noise': sorted(set(rates_a)), 'draws': len(rates_a)}})
+        if case['p'] == 0 and nf:
+            V.append({'key': dict(key0, kind='failure-recorded-at-zero-error-rate'),
+                      'detail': {'n_fail': nf, 'n_runs': a[0]}})
     res['nontrivial'] = int(bool(ea) or 0 < nf < len(a[3]))
     res['outcomes'] = ['%s|seed|%d|%d|%s' % (case['decoder'][:5], a[0], nf, ea[0] if ea else '-')]
     res['extra']['seeds_runs_raising'] = int(bool(ea)) + int(bool(eb))
@@ -874,4 +1043,82 @@ def _eval_seeds(case):
                                                                         case['p']),
                                'seed': case['seed'], 'trials_completed': a[0], 'failures': nf,
                                'raised': ea[0] if ea else None})
+    return res
+
+
+# ------------------------------------------------------------------ part 'estimator'
+def _eval_estimator(case):
+    """calculate_logical_error_rate takes no generator, so the error model is the environment: a scripted,
+    counting model hands out the stream.  Oracle: exactly n_runs errors are drawn, all at the simulated rate,
+    and the estimate is n_fail / n_runs with n_fail from the reference pipeline (fresh decoder per syndrome)."""
+    from panqec.simulation import calculate_logical_error_rate
+    res = _new_result()
+    X = res['extra']
+    code = _build_code(case)
+    ref_code = _build_code(case)
+    ref = _Ref(code)
+    n = ref.n
+    key0 = _base_key(case, ref)
+    V = res['violations']
+    counts = {}
+
+    def bad(kind, n_runs, stream, **detail):
+        counts[kind] = counts.get(kind, 0) + 1
+        if counts[kind] == 1 and len(V) < 5:
+            V.append({'key': dict(key0, kind=kind, n_runs=n_runs, stream=stream), 'detail': detail})
+
+    fresh = {}
+
+    def ref_fails(e):
+        s = ref.syndrome(e)
+        if s not in fresh:
+            _, d = _fresh_decoder(case, ref_code)
+            with contextlib.redirect_stdout(io.StringIO()):
+                c = d.decode(np.array(gf2.int_to_vec(s, ref.m), dtype=np.uint8))
+            fresh[s] = _bin_int(np.asarray(c) % 2, 2 * n)
+        c = fresh[s]
+        return True if c is None else not ref.judge(e, c)[2]
+
+    letter_error = {l: _letter_script(l, code, ref)[1] for l in case['letters']}
+    outcomes = set()
+    for n_runs in range(1, case['max_runs'] + 1):
+        for stream in itertools.product(case['letters'], repeat=n_runs):
+            stream = ''.join(stream)
+            errors = [letter_error[l] for l in stream]
+            em, dec = _fresh_decoder(case, code, 'scr')
+            em.script = [gf2.int_to_vec(e, 2 * n) for e in errors]
+            try:
+                with contextlib.redirect_stdout(io.StringIO()):
+                    est = calculate_logical_error_rate(code, em, dec, case['p'], n_runs)
+            except Exception as exc:
+                bad('raises', n_runs, stream, exc=type(exc).__name__, message=str(exc)[:200])
+                V[-1]['key'].setdefault('exc', type(exc).__name__)
+                res['evals'] += 1
+                continue
+            res['evals'] += 1
+            res['nontrivial'] += int(n_runs >= 2)
+            drawn = len(em.rates)
+            if drawn != n_runs:
+                bad('estimator-trial-count-differs-from-n_runs', n_runs, stream, errors_drawn=drawn)
+            if any(x != float(case['p']) for x in em.rates):
+                bad('noise-sampled-at-rate-other-than-simulated', n_runs, stream, simulated_rate=case['p'],
+                    decoder_prior=_prior(case), rates_passed_to_noise=sorted(set(em.rates)))
+            n_fail = sum(1 for e in errors if ref_fails(e))
+            want = n_fail / n_runs
+            try:
+                ok = abs(float(est) - want) <= 1e-15
+            except (TypeError, ValueError):
+                ok = False
+            if not ok:
+                bad('estimate-differs-from-n_fail-over-n_runs', n_runs, stream, estimate=repr(est),
+                    expected=want, reference_failures=n_fail,
+                    errors=[_pauli(e, n) for e in errors])
+            outcomes.add('%s|est|%d|%d' % (case['decoder'][:5], n_runs, n_fail))
+    for kk, vv in counts.items():
+        X['estimator_' + kk.replace('-', '_')] = vv
+    res['traces'] = res['evals']
+    res['outcomes'] = sorted(outcomes)[:50]
+    res['samples'].append({'part': 'estimator', 'config': '%s %s p=%s prior=%s' % (
+        F.cfg_label(case), case['decoder'], case['p'], _prior(case)), 'letters': case['letters'],
+        'max_runs': case['max_runs'], 'calls': res['evals']})
     return res
